@@ -10,7 +10,7 @@ node), and — non-pruning — each commit write failed, applied and not applied
 Each such way is an ordinary linear command list; its later behaviour is compared
 with a twin world that never opened the batch.
 """
-from ..core import HarnessError, Stats, Violation, hx
+from ..core import HarnessError, Stats, Violation, deep, hx
 from ..hgen import HistoryGen, make_pool, make_values, probe_keys
 from ..hworld import HWorld
 
@@ -253,8 +253,9 @@ def generate(rng):
     prune = rng.random() < 0.6
     cache = rng.choice([0, 1, 2, 8, 4096])
     g = HistoryGen(rng, pool, values, probes, batches=True, aborts=True, reopen=True, lookups=(0, 1))
-    prefix = g.history(rng.choice([0, 1, 2, 4, 8, 12, 20]))
-    k = rng.choice([0, 1, 1, 2, 2, 3, 4, 5, 8])
+    g.p_hashval = 0.0  # a value taken from the db's key set would mean different things in the twin world
+    prefix = g.history(rng.choice(deep([0, 1, 2, 4, 8, 12, 20], [0, 2, 4, 8, 16, 30, 50])))
+    k = rng.choice(deep([0, 1, 1, 2, 2, 3, 4, 5, 8], [1, 2, 3, 4, 6, 8, 12, 16]))
     g.batch_present = dict(g.present)
     ops = []
     for _ in range(k):
